@@ -5,6 +5,7 @@
 #include <cstdlib>
 #include <cstring>
 #include <dirent.h>
+#include <fcntl.h>
 #include <fstream>
 #include <map>
 #include <sstream>
@@ -230,6 +231,14 @@ int main(int argc, char **argv)
                 std::ofstream f(p, std::ios::binary);
                 f << unhexb(hex);
             }
+            if (shim::clockNowMs() > 0) {
+                // a file some other program (or an earlier run) left behind carries the time it was written at, in virtual time
+                struct timespec ts[2];
+                ts[0].tv_sec = shim::clockNowMs() / 1000;
+                ts[0].tv_nsec = (shim::clockNowMs() % 1000) * 1000000L;
+                ts[1] = ts[0];
+                utimensat(AT_FDCWD, p.c_str(), ts, 0);
+            }
             emitRec("FOREIGN", ",\"name\":\"" + name + "\"", true);
         } else if (cmd == "MKDIR") {
             std::string name;
@@ -243,6 +252,8 @@ int main(int argc, char **argv)
             int mode, err;
             is >> k >> mode >> err;
             shim::arm(k, shim::Mode(mode), err);
+            long then = 0;
+            if (is >> then) shim::thenCrashAt(then);
         } else if (cmd == "DISARM") {
             bool fired = shim::faultFired();
             std::string nm = shim::faultCallName();
